@@ -196,6 +196,8 @@ class CommonModels(Models):
     def single_observer(self, ex, path, inst, meth, args):
         self.used.add('contract:SingleObserver.' + meth)
         oid, fired = self.so_fields(ex, path, inst)
+        if meth == '__init__':
+            return [(path, NONE)]
         if meth == 'fire':
             out = []
             pt, pf = ex.branch(path, fired.t)
@@ -301,6 +303,25 @@ class CommonModels(Models):
 
 F_tok = z3.Function('str_split_tok', z3.StringSort(), z3.IntSort(), z3.StringSort())
 F_ntok = z3.Function('str_split_ntok', z3.StringSort(), z3.IntSort())
+
+
+_ax_n = [0]
+
+
+def split_axioms(s_t):
+    """A7 characterisation of the first token of s.split(), as constraints (fresh witnesses)"""
+    _ax_n[0] += 1
+    lead = z3.String('ax_lead!%d' % _ax_n[0])
+    rest = z3.String('ax_rest!%d' % _ax_n[0])
+    ws = z3.Star(re_ws())
+    allws = z3.InRe(s_t, ws)
+    t0 = F_tok(s_t, 0)
+    ntok = F_ntok(s_t)
+    return [ntok >= 0, z3.Implies(allws, ntok == 0),
+            z3.Implies(z3.Not(allws), z3.And(
+                ntok >= 1, s_t == z3.Concat(lead, t0, rest), z3.InRe(lead, ws), z3.Length(t0) > 0, no_ws_in(t0),
+                z3.Or(z3.Length(rest) == 0, is_ws_char(z3.SubString(rest, 0, 1))),
+                z3.Implies(z3.Length(rest) == 0, ntok == 1)))]
 
 
 class VTokens(V):
